@@ -20,6 +20,7 @@ import (
 	"strconv"
 	"strings"
 	"sync"
+	"sync/atomic"
 	"time"
 
 	"go.uber.org/zap"
@@ -79,6 +80,12 @@ func childMain() {
 		outMu.Unlock()
 	}
 
+	// gate: lets the monitor hold session-changing callbacks (overlap workload). Open with no delay by default, in
+	// which case pass() returns at once. tab is the harness-owned session table: how many times each session was
+	// handed to a session-changing callback (policy update / termination).
+	g := &gate{blocked: map[int]chan struct{}{}, emit: emit, tab: map[string]*[2]int{}}
+	var rngMu sync.Mutex
+
 	srv, err := radius.NewCoAServer(radius.CoAServerConfig{Address: "127.0.0.1:0", Secret: string(secret)}, zap.NewNop())
 	if err != nil {
 		fmt.Fprintln(os.Stderr, "c15 child: NewCoAServer:", err)
@@ -114,6 +121,8 @@ func childMain() {
 			return nil, false
 		})
 		p.SetSessionTerminator(func(ctx context.Context, id string, reason uint32) error {
+			g.pass("term", hex.EncodeToString([]byte(id)), "")
+			g.apply(hex.EncodeToString([]byte(id)), 1)
 			emit(event{K: "term", SID: hex.EncodeToString([]byte(id))})
 			if n, _ := sessN(id); n%7 == 3 {
 				return errors.New("session busy")
@@ -121,6 +130,8 @@ func childMain() {
 			return nil
 		})
 		p.SetSessionPolicyUpdater(func(ctx context.Context, id string, u *radius.PolicyUpdate) error {
+			g.pass("policy", hex.EncodeToString([]byte(id)), "")
+			g.apply(hex.EncodeToString([]byte(id)), 0)
 			emit(event{K: "policy", SID: hex.EncodeToString([]byte(id))})
 			if n, _ := sessN(id); n%5 == 4 {
 				return errors.New("policy store unavailable")
@@ -132,6 +143,8 @@ func childMain() {
 	} else {
 		causes := []uint32{0, 0, 201, 401, 402, 403, 404, 501, 503, 504, 506, 0xFFFFFFFF}
 		verdict := func() (bool, uint32, string) {
+			rngMu.Lock() // handlers may run concurrently on a listener that dispatches them on goroutines
+			defer rngMu.Unlock()
 			ok := rng.IntN(2) == 0
 			ec := causes[rng.IntN(len(causes))]
 			msg := make([]byte, 0)
@@ -148,16 +161,26 @@ func childMain() {
 			return ok, ec, string(msg)
 		}
 		coaInner = func(ctx context.Context, req *radius.CoARequest) *radius.CoAResponse {
+			g.pass("coa", hex.EncodeToString([]byte(req.SessionID)), hex.EncodeToString([]byte(req.Username)))
+			if req.SessionID != "" {
+				g.apply(hex.EncodeToString([]byte(req.SessionID)), 0)
+			}
 			ok, ec, msg := verdict()
 			return &radius.CoAResponse{Success: ok, ErrorCause: ec, Message: msg}
 		}
 		discInner = func(ctx context.Context, req *radius.DisconnectRequest) *radius.DisconnectResponse {
+			g.pass("disc", hex.EncodeToString([]byte(req.SessionID)), hex.EncodeToString([]byte(req.Username)))
+			if req.SessionID != "" {
+				g.apply(hex.EncodeToString([]byte(req.SessionID)), 1)
+			}
 			ok, ec, msg := verdict()
 			return &radius.DisconnectResponse{Success: ok, ErrorCause: ec, Message: msg}
 		}
 	}
 	hs := func(s string) string { return hex.EncodeToString([]byte(s)) }
 	srv.SetCoAHandler(func(ctx context.Context, req *radius.CoARequest) *radius.CoAResponse {
+		inflight.Add(1)
+		defer inflight.Add(-1)
 		resp := coaInner(ctx, req)
 		e := event{K: "coa", SID: hs(req.SessionID), User: hs(req.Username), CS: hs(req.CallingStation), FIP: hex.EncodeToString(req.FramedIP), NAS: hex.EncodeToString(req.NASIPAddress),
 			Filter: hs(req.FilterID), STO: req.SessionTimeout, ITO: req.IdleTimeout, OK: resp.Success, EC: resp.ErrorCause, Msg: hs(resp.Message)}
@@ -168,6 +191,8 @@ func childMain() {
 		return resp
 	})
 	srv.SetDisconnectHandler(func(ctx context.Context, req *radius.DisconnectRequest) *radius.DisconnectResponse {
+		inflight.Add(1)
+		defer inflight.Add(-1)
 		resp := discInner(ctx, req)
 		emit(event{K: "disc", SID: hs(req.SessionID), User: hs(req.Username), CS: hs(req.CallingStation), FIP: hex.EncodeToString(req.FramedIP), NAS: hex.EncodeToString(req.NASIPAddress),
 			OK: resp.Success, EC: resp.ErrorCause, Msg: hs(resp.Message)})
@@ -187,30 +212,137 @@ func childMain() {
 
 	in := bufio.NewScanner(os.Stdin)
 	for in.Scan() {
-		switch in.Text() {
-		case "E": // everything emitted so far precedes this reply on the pipe
+		c := in.Text()
+		switch {
+		case c == "E": // everything emitted so far precedes this reply on the pipe
 			emit(event{Reply: "E"})
-		case "Q": // reply once the listener is quiescent: socket queue empty and receiveLoop parked in its read
+		case c == "Q" || c == "S": // reply once the listener is quiescent (see waitQuiescent), or after a bounded wait
 			q := waitQuiescent(ua.Port, 3*time.Second)
-			emit(event{Reply: "Q", Q: &q})
-		case "X":
+			emit(event{Reply: c, Q: &q})
+		case c == "W": // has the datagram just sent been consumed, or is it waiting behind a held handler?
+			q := waitConsumed(ua.Port, 400*time.Millisecond)
+			q.Blocked = g.nblocked()
+			emit(event{Reply: c, Q: &q})
+		case c == "C": // hold session-changing callbacks from now on
+			g.setClosed(true)
+			emit(event{Reply: c})
+		case c == "O": // release every held callback and stop holding
+			g.setClosed(false)
+			emit(event{Reply: c})
+		case strings.HasPrefix(c, "R "): // release one held callback
+			n, _ := strconv.Atoi(c[2:])
+			g.release(n)
+			emit(event{Reply: c})
+		case strings.HasPrefix(c, "D "): // session-changing callbacks take this many milliseconds
+			n, _ := strconv.Atoi(c[2:])
+			g.setDelay(time.Duration(n) * time.Millisecond)
+			emit(event{Reply: c})
+		case c == "T": // the session table
+			emit(event{Reply: c, Tab: g.table()})
+		case c == "X":
 			os.Exit(0)
 		}
 	}
 	os.Exit(0) // parent went away
 }
 
+// inflight: harness handlers entered and not yet returned (whatever goroutine the listener runs them on).
+var inflight atomic.Int64
+
+// gate holds session-changing callbacks until the monitor releases them.
+type gate struct {
+	mu      sync.Mutex
+	closed  bool
+	delay   time.Duration
+	seq     int
+	blocked map[int]chan struct{}
+	tab     map[string]*[2]int
+	emit    func(event)
+}
+
+func (g *gate) pass(k, sidHex, userHex string) {
+	g.mu.Lock()
+	d := g.delay
+	if !g.closed {
+		g.mu.Unlock()
+		if d > 0 {
+			time.Sleep(d)
+		}
+		return
+	}
+	g.seq++
+	n := g.seq
+	ch := make(chan struct{})
+	g.blocked[n] = ch
+	g.mu.Unlock()
+	g.emit(event{K: "enter", Cb: k, SID: sidHex, User: userHex, Seq: n})
+	<-ch
+}
+
+func (g *gate) apply(sidHex string, what int) {
+	g.mu.Lock()
+	c := g.tab[sidHex]
+	if c == nil {
+		c = &[2]int{}
+		g.tab[sidHex] = c
+	}
+	c[what]++
+	g.mu.Unlock()
+}
+
+func (g *gate) table() map[string][2]int {
+	g.mu.Lock()
+	defer g.mu.Unlock()
+	out := make(map[string][2]int, len(g.tab))
+	for k, v := range g.tab {
+		out[k] = *v
+	}
+	return out
+}
+
+func (g *gate) setClosed(c bool) {
+	g.mu.Lock()
+	g.closed = c
+	if !c {
+		for n, ch := range g.blocked {
+			close(ch)
+			delete(g.blocked, n)
+		}
+	}
+	g.mu.Unlock()
+}
+
+func (g *gate) setDelay(d time.Duration) { g.mu.Lock(); g.delay = d; g.mu.Unlock() }
+
+func (g *gate) release(n int) {
+	g.mu.Lock()
+	if ch, ok := g.blocked[n]; ok {
+		close(ch)
+		delete(g.blocked, n)
+	}
+	g.mu.Unlock()
+}
+
+func (g *gate) nblocked() int { g.mu.Lock(); defer g.mu.Unlock(); return len(g.blocked) }
+
+// waitQuiescent replies once nothing is left to happen in the listener, whatever its threading: the socket queue
+// is empty, no harness handler is in flight, a goroutine of package radius is parked in its socket read and no other
+// goroutine of package radius is running, runnable, sleeping or waiting for a lock (goroutines parked on a channel,
+// i.e. idle workers, are allowed) - observed on two consecutive polls. After max the last observation is returned with
+// Quiescent=false.
 func waitQuiescent(port int, max time.Duration) quiesce {
 	deadline := time.Now().Add(max)
 	streak := 0
 	var q quiesce
 	for {
 		q.RxQ = udpRxQueue(port)
-		q.Loop = loopState()
-		q.Quiescent = q.RxQ == 0 && strings.HasPrefix(q.Loop, "IO wait")
+		q.Loop, q.Readers, q.Busy = radiusGoroutines()
+		q.Inflight = int(inflight.Load())
+		q.Polls++
+		q.Quiescent = q.RxQ == 0 && q.Inflight == 0 && q.Busy == 0 && q.Readers >= 1
 		if q.Quiescent {
 			streak++
-			if streak >= 3 {
+			if streak >= 2 {
 				return q
 			}
 		} else {
@@ -220,7 +352,42 @@ func waitQuiescent(port int, max time.Duration) quiesce {
 			q.Quiescent = false
 			return q
 		}
-		time.Sleep(2 * time.Millisecond)
+		time.Sleep(time.Millisecond)
+	}
+}
+
+// waitConsumed classifies what became of the datagram the monitor has just sent while a handler is held:
+// Consumed - the socket queue is empty and a reader is parked in its read again (a listener that reads on while a
+// handler runs); Queued - the datagram sits in the socket queue and every goroutine of package radius is parked (a
+// listener that handles one datagram at a time). It is used to label overlap episodes, never to judge them.
+func waitConsumed(port int, max time.Duration) quiesce {
+	deadline := time.Now().Add(max)
+	cs, qs := 0, 0
+	var q quiesce
+	for {
+		q.RxQ = udpRxQueue(port)
+		q.Loop, q.Readers, q.Busy = radiusGoroutines()
+		q.Inflight = int(inflight.Load())
+		switch {
+		case q.RxQ == 0 && q.Busy == 0 && q.Readers >= 1:
+			cs, qs = cs+1, 0
+		case q.RxQ > 0 && q.Busy == 0 && q.Readers == 0:
+			cs, qs = 0, qs+1
+		default:
+			cs, qs = 0, 0
+		}
+		if cs >= 2 {
+			q.Consumed = true
+			return q
+		}
+		if qs >= 2 {
+			q.Queued = true
+			return q
+		}
+		if time.Now().After(deadline) {
+			return q
+		}
+		time.Sleep(time.Millisecond)
 	}
 }
 
@@ -246,18 +413,38 @@ func udpRxQueue(port int) int {
 	return -1
 }
 
-// loopState returns the scheduler state of the goroutine running (*CoAServer).receiveLoop ("IO wait" when parked in ReadFromUDP).
-func loopState() string {
-	buf := make([]byte, 1<<20)
-	buf = buf[:runtime.Stack(buf, true)]
+var stackBuf = make([]byte, 1<<20)
+
+// radiusGoroutines looks at every goroutine with a frame of bng's package radius on its stack: loop is the scheduler
+// state of the one running (*CoAServer).receiveLoop ("absent" if there is none), readers the number parked in "IO wait"
+// (a socket read), busy the number that are neither parked in a read nor parked on a channel.
+func radiusGoroutines() (loop string, readers, busy int) {
+	buf := stackBuf[:runtime.Stack(stackBuf, true)]
+	loop = "absent"
 	for _, blk := range strings.Split(string(buf), "\n\n") {
-		if !strings.Contains(blk, "(*CoAServer).receiveLoop") {
+		if k := strings.Index(blk, "\ncreated by "); k >= 0 {
+			blk = blk[:k] // frames only: where the goroutine is, not who started it
+		}
+		if !strings.Contains(blk, "bng/pkg/radius.") {
 			continue
 		}
-		i, j := strings.IndexByte(blk, '['), strings.IndexByte(blk, ']')
-		if i >= 0 && j > i {
-			return blk[i+1 : j]
+		st := ""
+		if i, j := strings.IndexByte(blk, '['), strings.IndexByte(blk, ']'); i >= 0 && j > i {
+			st = blk[i+1 : j]
+		}
+		if k := strings.IndexByte(st, ','); k >= 0 {
+			st = st[:k]
+		}
+		if strings.Contains(blk, "(*CoAServer).receiveLoop") {
+			loop = st
+		}
+		switch st {
+		case "IO wait":
+			readers++
+		case "chan receive", "select", "chan send":
+		default:
+			busy++
 		}
 	}
-	return "absent"
+	return
 }
